@@ -1109,6 +1109,18 @@ RFC_CORNERS = [
 ]
 
 
+INVALID_CORNERS = [b'if true keep;', b'if true { keep }', b'if (true) { keep; }', b'if anyof true { keep; }', b'if anyof () { keep; }', b'if anyof (true,) { keep; }',
+                   b'if anyof (,true) { keep; }', b'keep; else { keep; }', b'if true { keep; } else { keep; } else { stop; }', b'if true { keep; } elsif { stop; }',
+                   b'elsif true { keep; }', b'if not { keep; }', b'if not not { keep; }', b'if true { keep; };', b';', b'keep;;', b'if true {{ keep; }}', b'if true { keep; }}',
+                   b'stop stop;', b'keep "x";', b'discard :copy;', b'redirect;extra', b'redirect "a" "b";', b'redirect ["a","b"] ;', b'redirect 5;',
+                   b'if size :over "10K" { keep; }', b'if size :over 10 K { keep; }', b'if size 10K { keep; }', b'if size :over :under 10K { keep; }',
+                   b'if header "a" "b" :is { keep; }', b'if header :is ["a" "b"] "c" { keep; }', b'if header :is ["a",] "c" { keep; }', b'if header :is [] "c" { keep; }',
+                   b'if true { keep; } if', b'require "fileinto" fileinto "x";', b'require ["fileinto"]; fileinto "x" { keep; }', b'if true { require "fileinto"; }',
+                   b'keep; require "fileinto";', b'if header :comparator :is "a" "b" { keep; }', b'if header :comparator "i;octet" "i;octet" :is "a" "b" { keep; }',
+                   b'if true { keep; } # trailing\n/* open', b'text:\nx\n.\n;', b'redirect "unterminated;', b'redirect "a\\";', b'if true { keep; } else if true { stop; }',
+                   b'IF TRUE { KEEP; } ELSE { STOP; } ELSIF TRUE { KEEP; }']
+
+
 def bounded_rfc_corners(pid, tier, seed):
     """hand-written valid scripts, one per rarely used corner of the RFC 5228 grammar: the reference must call each valid
     (else the case is dropped as a mistake of mine) and the parser must accept it"""
@@ -1128,7 +1140,17 @@ def bounded_rfc_corners(pid, tier, seed):
             violations.append(("%s.P.corners.%s" % (pid, name), {"script": data.decode("latin-1")}, "raised %s" % r["exc"]))
         else:
             violations.append(("%s.P.corners.%s" % (pid, name), {"script": data.decode("latin-1")}, "rejected: %s" % r.get("error")))
-    return {"name": "rfc-grammar-corners", "bound": "%d hand-written valid scripts, one per corner of the grammar" % evals,
+    for k, data in enumerate(INVALID_CORNERS):
+        v = ref.verdict(data)
+        if v.status != "invalid":
+            continue
+        evals += 1
+        r = real_parse(data)
+        if r["verdict"] is True:
+            violations.append(("%s.P.corners.accepts-invalid.%s" % (pid, v.reason), {"script": data.decode("latin-1")}, "accepted; reference: %s" % v.reason))
+        elif r["verdict"] == "exception":
+            violations.append(("%s.P.corners.exception" % pid, {"script": data.decode("latin-1")}, "raised %s" % r["exc"]))
+    return {"name": "rfc-grammar-corners", "bound": "%d hand-written scripts: valid ones (grammar corners, RFC examples) and invalid ones (one grammar error each)" % evals,
             "rule": "distinct = script", "evaluations": evals, "distinct": evals, "samples": samples, "exhaustive": True, "violations": violations}
 
 
